@@ -14,7 +14,7 @@ RULE = ("seeded random pairs of real projects over the universe of the property 
         "project documents overlapping / nested / conflicting / mixed-type) x options (strategy None/always/never/update/custom, "
         "doc_sync default/ByKey(pred|regex)/update/NO_SYNC/COPY, recursive, exclude str/list, selection by id/job incl. foreign "
         "ids, check_schema) x entry point (Project.sync, sync_projects, Job.sync, sync_jobs incl. uninitialised jobs and jobs with "
-        "different state points); plus the one-file core family (content x mtime x strategy x depth x recursive x entry); every "
+        "different state points); plus the one-file core family (content x mtime x strategy x depth x recursive x entry), deep trees whose intermediate levels are identical (difference 3-5 levels down) and stale document backup files; every "
         "successful call is repeated on the tree it left.  non-trivial: the call changed the destination or raised; distinct by "
         "the JSON of the scenario")
 TRUSTED = [
@@ -35,9 +35,10 @@ ASSUMPTIONS = ["both workspaces are valid (directory name = id of the state poin
 def gen_inputs(tier, rng):
     n = 400 if tier == "quick" else 8000
     descs = [sync_gen.rand_scenario(rng, PROP) for _ in range(n)]
-    core = sync_gen.core_file_cases()
-    descs += core if tier != "quick" else rng.sample(core, 80)
-    return descs
+    core, nested, backup = sync_gen.core_file_cases(), sync_gen.core_nested_cases(), sync_gen.core_backup_cases()
+    if tier == "quick":
+        core, nested, backup = rng.sample(core, 80), rng.sample(nested, 90), rng.sample(backup, 40)
+    return descs + core + nested + backup
 
 def run_case(desc):
     return sync_gen.run_scenario(desc, PROP)
